@@ -106,7 +106,7 @@ def op_setitem(v, uni, ctx):
 
 def op_reorder(v, uni, ctx):
     obj = v.pick("obj", uni.secs + uni.props)
-    idx = v.pick("idx", [0, 1, 2, -1, 5])
+    idx = v.pick("idx", [0, 1, 2, -1, 5, 1.5])      # 1.5: a position the list refuses after the lookup
     obj.reorder(idx)
     return []
 
